@@ -345,7 +345,12 @@ def op_sl_read_other_kwargs(fa, c, k):
     for name, prm in inspect.signature(fa.schemaless_reader).parameters.items():
         if name not in KNOWN_READER_KW and prm.kind in (prm.KEYWORD_ONLY, prm.POSITIONAL_OR_KEYWORD) and (prm.default is None or isinstance(prm.default, bool)):
             extra[name] = not prm.default
-    return (sorted(extra), fa.schemaless_reader(io.BytesIO(k["rec2"]), c["rec"], **extra))
+    out = [sorted(extra), fa.schemaless_reader(io.BytesIO(k["rec2"]), c["rec"], **extra)]
+    if any(v is True and True for v in extra.values()):
+        # options whose default is None: the other truth value as well
+        flipped = {n: (False if inspect.signature(fa.schemaless_reader).parameters[n].default is None else v) for n, v in extra.items()}
+        out.append(fa.schemaless_reader(io.BytesIO(k["rec2"]), c["rec"], **flipped))
+    return out
 
 
 OPS = [
@@ -371,7 +376,7 @@ def units(tier):
     us = [("pair", a, b) for a, b in itertools.combinations_with_replacement(idx, 2)
           if (tier == "thorough" and not ({a, b} & {21, 22})) or not ({a, b} & special)
           or (a, b) in ((14, 15), (16, 17), (14, 17), (18, 18), (18, 19), (19, 19), (20, 21), (20, 20), (22, 22), (5, 22),
-                        (10, 23), (23, 24), (10, 24), (25, 25), (25, 26), (26, 26), (8, 25), (27, 27), (13, 27), (28, 28), (2, 28), (28, 29), (30, 30), (10, 30), (31, 32), (31, 31), (33, 33), (34, 0), (34, 1), (34, 34))]
+                        (10, 23), (23, 24), (10, 24), (25, 25), (25, 26), (26, 26), (8, 25), (27, 27), (13, 27), (28, 28), (2, 28), (28, 29), (30, 30), (10, 30), (31, 32), (31, 31), (33, 33), (0, 34), (1, 34), (34, 34))]
     us = [(u, c) for u in us for c in range(CHUNKS)]
     # cold start: every execution begins with a freshly imported library (first-call initialisation races);
     # deviations at the 1st, 2nd and last visit of every source line of the default execution
